@@ -1088,6 +1088,7 @@ private:
       if (s->ssl)
       {
         ::SSL_shutdown(s->ssl);
+        ::ERR_clear_error(); // SSL_shutdown() during the handshake queues an error nobody reads
         ::SSL_free(s->ssl);
         s->ssl = nullptr;
       }
@@ -2035,6 +2036,7 @@ private:
       return false;
     }
 
+    ::ERR_clear_error(); // SSL_get_error() below is only reliable with an empty thread error queue
     int rc = ::SSL_do_handshake(s->ssl);
     if (rc == 1)
     {
@@ -2115,6 +2117,11 @@ private:
           return;
         }
 
+        // The thread's OpenSSL error queue must be empty before a TLS I/O call, or SSL_get_error()
+        // reports SSL_ERROR_SSL for a plain would-block: a stale entry left by ANOTHER session (e.g.
+        // SSL_shutdown() on a session closed mid-handshake queues "shutdown while in init") would
+        // otherwise make this healthy session look broken and get it closed with TLSIO.
+        ::ERR_clear_error();
         n = ::SSL_read(s->ssl, buf.data(), (int)buf.size());
         if (n <= 0)
         {
@@ -2200,6 +2207,7 @@ private:
           return;
         }
 
+        ::ERR_clear_error(); // see readAvail(): empty error queue before TLS I/O
         n = ::SSL_write(s->ssl, d.data(), (int)d.size());
         if (n <= 0)
         {
@@ -2346,6 +2354,7 @@ private:
         }
 
         IORA_LOG_DEBUG("[IO-THREAD] About to call SSL_write for sid=" << sr.sid << ", size=" << sr.payload.size());
+        ::ERR_clear_error(); // see readAvail(): empty error queue before TLS I/O
         n = ::SSL_write(s->ssl, sr.payload.data(), (int)sr.payload.size());
         IORA_LOG_DEBUG("[IO-THREAD] SSL_write returned " << n << " for sid=" << sr.sid);
         if (n > 0)
@@ -2481,6 +2490,7 @@ private:
     if (ssl)
     {
       ::SSL_shutdown(ssl);
+      ::ERR_clear_error(); // SSL_shutdown() during the handshake queues an error nobody reads
       ::SSL_free(ssl);
     }
 
